@@ -315,28 +315,36 @@ def PayloadOK (n : Nat) : Payload → Prop
   | .data d => d ≠ []
   | .back b => b ≤ n
 
-/-- record `r` of transaction `tid`, `older` = all records of older transactions: the record carries
-    the transaction's tid, `prev` is the index entry at the time of writing, a pickle is never empty and
-    a back pointer designates a record of an older transaction (or is 0) -/
-def RecOK (tid : Nat) (older : List Rec) (r : Rec) : Prop :=
-  r.tid = tid ∧ r.prev = lastPos r.oid older ∧ PayloadOK older.length r.pl
+/-- record `r` of transaction `tid` with status `packed`, `older` = all records of older transactions:
+    the record carries the transaction's tid; in a not-packed transaction `prev` is the index entry at
+    the time of writing (pack writes `prev = 0` into every record it copies below the pack time —
+    `fspack.writePackedDataRecord` — even when several revisions of the object survive there as
+    back-pointer targets, so nothing is assumed about `prev` in packed transactions); a pickle is never
+    empty and a back pointer designates a record of an older transaction (or is 0) -/
+def RecOK (tid : Nat) (packed : Bool) (older : List Rec) (r : Rec) : Prop :=
+  r.tid = tid ∧ (packed = false → r.prev = lastPos r.oid older) ∧ PayloadOK older.length r.pl
 
+/-- tids grow, and the packed transactions are the oldest ones -/
 def Inv : Log → Prop
   | [] => True
-  | t :: older => (∀ r ∈ t.recs, RecOK t.tid (flat older) r) ∧ (∀ t' ∈ older, t'.tid < t.tid) ∧ Inv older
+  | t :: older =>
+    (∀ r ∈ t.recs, RecOK t.tid t.packed (flat older) r) ∧ (∀ t' ∈ older, t'.tid < t.tid) ∧
+    (t.packed = true → ∀ t' ∈ older, t'.packed = true) ∧ Inv older
 
 def payloadOKb (n : Nat) : Payload → Bool
   | .data d => !d.isEmpty
   | .back b => decide (b ≤ n)
 
-def recOKb (tid : Nat) (older : List Rec) (r : Rec) : Bool :=
-  decide (r.tid = tid) && decide (r.prev = lastPos r.oid older) && payloadOKb older.length r.pl
+def recOKb (tid : Nat) (packed : Bool) (older : List Rec) (r : Rec) : Bool :=
+  decide (r.tid = tid) && (packed || decide (r.prev = lastPos r.oid older)) &&
+    payloadOKb older.length r.pl
 
 /-- executable form of `Inv` (used by the driver on files read back from the real storage) -/
 def invB : Log → Bool
   | [] => true
   | t :: older =>
-    t.recs.all (recOKb t.tid (flat older)) && older.all (fun t' => decide (t'.tid < t.tid)) && invB older
+    t.recs.all (recOKb t.tid t.packed (flat older)) && older.all (fun t' => decide (t'.tid < t.tid)) &&
+      (!t.packed || older.all (fun t' => t'.packed)) && invB older
 
 /-- oids written by a transaction -/
 def Txn.oids (t : Txn) : List Nat := t.recs.map (·.oid)
@@ -389,7 +397,7 @@ def verdictFor (resolve : Resolver) (V : List Rec) (T : Txn) (older : Log) (oid 
     (dataOf (flat (T :: older)) oid) (dataOf V oid) (dataOf (flat older) oid)
 
 /-- staged records of the open transaction `utid` are well formed relative to the committed file `F` -/
-def StagedOK (utid : Nat) (F S : List Rec) : Prop := ∀ s ∈ S, RecOK utid F s
+def StagedOK (utid : Nat) (F S : List Rec) : Prop := ∀ s ∈ S, RecOK utid false F s
 
 /-! ### histories: every log the storage can reach by ordinary commits and undo transactions -/
 
